@@ -15,3 +15,56 @@ package interceptor
 //@
 //@ iface RTCPReader.Read
 //@   ensures n_in_buffer: result2 == nil ==> 0 <= result0 && result0 <= len(arg0)
+//@
+//@ # Attributes.GetRTPHeader parses raw, or returns the header an inner interceptor cached for this packet.
+//@ # Assumed (not proved): a cached header was parsed from the same bytes, so in both cases the header lies within raw.
+//@ func (Attributes).GetRTPHeader
+//@   trusted attributes travel with their packet: a cached header was parsed from these bytes
+//@   modifies mem Attributes
+//@   ensures header_within_raw: result1 == nil ==> result0 != nil && result0.MarshalSize() <= len(raw)
+//@   ensures failed: result1 != nil ==> result0 == nil
+//@
+//@ # ---- Chain (property C01): every lifecycle call is delivered to each member once; the range loop visits every member once
+//@ func (*Chain).UnbindLocalStream
+//@   modifies *
+//@   loop 1 iteration delivered_once: calls("interceptor.UnbindLocalStream") == 1 && callarg("interceptor.UnbindLocalStream", 0) == ctx && calls("interceptor.UnbindRemoteStream") == 0
+//@
+//@ func (*Chain).UnbindRemoteStream
+//@   modifies *
+//@   loop 1 iteration delivered_once: calls("interceptor.UnbindRemoteStream") == 1 && callarg("interceptor.UnbindRemoteStream", 0) == ctx && calls("interceptor.UnbindLocalStream") == 0
+//@
+//@ func (*Chain).BindLocalStream
+//@   modifies *
+//@   loop 1 iteration wrapped_once: calls("interceptor.BindLocalStream") == 1 && callarg("interceptor.BindLocalStream", 0) == ctx
+//@
+//@ func (*Chain).BindRemoteStream
+//@   modifies *
+//@   loop 1 iteration wrapped_once: calls("interceptor.BindRemoteStream") == 1 && callarg("interceptor.BindRemoteStream", 0) == ctx
+//@
+//@ func (*Chain).BindRTCPReader
+//@   modifies *
+//@   loop 1 iteration wrapped_once: calls("interceptor.BindRTCPReader") == 1
+//@
+//@ func (*Chain).BindRTCPWriter
+//@   modifies *
+//@   loop 1 iteration wrapped_once: calls("interceptor.BindRTCPWriter") == 1
+//@
+//@ func (*Chain).Close
+//@   modifies *
+//@   loop 1 invariant collected: len(errs) == rangeindex + 1 && (errs == nil || fresh(errs))
+//@   loop 1 iteration closed_once: calls("interceptor.Close") == 1
+//@
+//@ # all Close errors are preserved: nil only when every member returned nil, otherwise every non-nil error is in the result
+//@ func flattenErrs
+//@   modifies nothing
+//@   ensures all_nil: (forall k int :: 0 <= k && k < len(errs) ==> errs[k] == nil) ==> result == nil
+//@   ensures preserved: forall k int :: 0 <= k && k < len(errs) && errs[k] != nil ==> typeis(result, "multiError")
+//@        && (exists j int :: 0 <= j && j < len(as(result, "multiError")) && as(result, "multiError")[j] == errs[k])
+//@   loop 1 invariant shape: fresh(errs2) && 0 <= len(errs2) && len(errs2) <= rangeindex + 1
+//@   loop 1 invariant kept: forall k int :: 0 <= k && k <= rangeindex && errs[k] != nil ==> exists j int :: 0 <= j && j < len(errs2) && errs2[j] == errs[k]
+//@   loop 1 invariant none_yet: (forall k int :: 0 <= k && k <= rangeindex ==> errs[k] == nil) ==> len(errs2) == 0
+//@   loop 1 decreases len(errs) - rangeindex
+//@
+//@ # safety only (property C02): parsing the RTCP bytes of a packet never indexes outside them
+//@ func (Attributes).GetRTCPPackets
+//@   modifies *
